@@ -209,6 +209,11 @@ unsigned int get_index_reg(struct instr *instruc, const char *mem, char reg[]) {
       if (!instruc->sib_disp && mem[j] == '*' &&
           check_sib_disp(instruc, mem[j + 1], mem[j + 2]))
         return EXIT_FAILURE;
+      // behind the index register (and its scale) only a displacement may
+      // follow: a further register ("[2*rax+rbx]") would silently be dropped
+      int k = mem[j] == '*' ? j + 2 : j;
+      if ((mem[k] == '+' || mem[k] == '-') && IN_RANGE(mem[k + 1], 'a', 'z'))
+        return EXIT_FAILURE;
       return EXIT_SUCCESS;
     }
     plus = false;
